@@ -96,6 +96,9 @@ TARGET_KINDS = {
     "allofchild": {"allOf": [{"$ref": REF + "Leaf"}, {"type": "object", "properties": {"y": {"type": "integer"}}}]},
     "discbase": {"type": "object", "properties": {"kind": {"type": "string"}}, "required": ["kind"], "discriminator": {"propertyName": "kind", "mapping": {"l": REF + "DLeaf"}}},
 }
+# a schema whose conversion FAILS (a union variant is a reference into another document): the generator reports it as
+# skipped; used by the fixed cases `extref_cases` only, not by the matrix
+EXT_UNION = {"oneOf": [{"$ref": REF + "Leaf"}, {"$ref": "Other.json#/components/schemas/Lizard"}]}
 POSITIONS = ["property", "item", "mapvalue", "oneof", "anyof", "allof", "nested", "mapping", "opparam", "pathparam", "reqbody", "respbody", "respbody2", "inlinedup", "headerparam", "nesteditem"]
 
 
@@ -113,7 +116,7 @@ def copy_schema(s):
 
 def position_spec(position, tkind):
     T = {"$ref": REF + "Tgt"}
-    schemas = {"Tgt": TARGET_KINDS[tkind], "Leaf": {"type": "object", "properties": {"l": {"type": "string"}}}, "Leaf2": {"type": "object", "properties": {"m": {"type": "string"}}},
+    schemas = {"Tgt": EXT_UNION if tkind == "extunion" else TARGET_KINDS[tkind], "Leaf": {"type": "object", "properties": {"l": {"type": "string"}}}, "Leaf2": {"type": "object", "properties": {"m": {"type": "string"}}},
                "DLeaf": {"allOf": [{"$ref": REF + "Tgt"}, {"type": "object", "properties": {"z": {"type": "string"}}}]} if tkind == "discbase" else {"type": "object", "properties": {"z": {"type": "string"}}},
                "Unused": {"type": "object", "properties": {"u": {"type": "string"}}}}
     root = {"type": "object", "properties": {"id": {"type": "string"}}}
